@@ -61,7 +61,7 @@ func (H) Describe(sc any) string {
 }
 
 var listKinds = []string{"pushfront", "pushback", "pushback", "insertbefore", "insertafter", "remove", "remove", "movetofront", "movetoback", "movebefore", "moveafter", "pushbacklist", "pushfrontlist", "init"}
-var ringKinds = []string{"next", "prev", "move", "move", "link", "link", "link", "unlink", "unlink", "len", "do"}
+var ringKinds = []string{"next", "prev", "move", "move", "link", "link", "link", "unlink", "unlink", "len", "do", "domut"}
 
 // Generate implements core.Harness.
 func (H) Generate(r *simrt.Rand, tier string) any {
@@ -401,6 +401,83 @@ func runRings(sc *Scenario) (*core.Violation, uint64) {
 		case "len":
 			hasResult = false
 			fo, fs = func() { lo = a.o.Len() }, func() { ls = a.s.Len() }
+		case "domut":
+			// Do whose callback edits the ring ahead of the traversal (never *r
+			// itself, which container/ring calls undefined): at the k-th visit the
+			// visited element x is linked to b, or unlinks op.N elements
+			hasResult = false
+			k := 1 + op.B%3
+			limit := 4*len(tab) + 8
+			mutate := func(x, y int, unlink bool, n int) (bool, int, int) {
+				// decided on the container/ring structure only; none of the four
+				// elements whose pointers change may be r
+				xs, ys := tab[x].s, tab[y].s
+				if unlink {
+					if n <= 0 {
+						return false, 0, 0
+					}
+					ys = xs.Move(n + 1)
+				}
+				for _, e := range []*ring.Ring{xs, xs.Next(), ys, ys.Prev()} {
+					if e == a.s {
+						return false, 0, 0
+					}
+				}
+				return true, x, sidx[ys]
+			}
+			var plan struct {
+				do   bool
+				x, y int
+			}
+			visitS := 0
+			fs = func() {
+				a.s.Do(func(v any) {
+					visitS++
+					if visitS > limit {
+						panic("too many visits")
+					}
+					do2 = append(do2, sval(v))
+					if visitS == k {
+						x := -1
+						for hi, e := range tab {
+							if sval(e.s.Value) == sval(v) {
+								x = hi
+							}
+						}
+						if x >= 0 {
+							plan.do, plan.x, plan.y = mutate(x, op.B%len(tab), op.N%2 == 0, op.N/2)
+							if plan.do {
+								tab[plan.x].s.Link(tab[plan.y].s)
+							}
+						}
+					}
+				})
+			}
+			visitO := 0
+			fo = func() {
+				a.o.Do(func(v int) {
+					visitO++
+					if visitO > limit {
+						panic("too many visits")
+					}
+					do1 = append(do1, v)
+					if visitO == k && plan.do {
+						tab[plan.x].o.Link(tab[plan.y].o)
+					}
+				})
+			}
+			// container/ring goes first: it decides the plan
+			ps0 := catch(fs)
+			po0 := catch(fo)
+			fo, fs = func() {
+				if po0 {
+					panic("replay")
+				}
+			}, func() {
+				if ps0 {
+					panic("replay")
+				}
+			}
 		default: // do: possibly the very first operation on a zero-value ring
 			hasResult = false
 			fo, fs = func() { a.o.Do(func(v int) { do1 = append(do1, v) }) }, func() { a.s.Do(func(v any) { do2 = append(do2, sval(v)) }) }
